@@ -4,8 +4,73 @@ import (
 	"fmt"
 	"go/ast"
 	"path/filepath"
+	"reflect"
+	"strconv"
 	"strings"
 )
+
+// pbFieldTable re-reads the `protobuf:"kind,number,label,..."` struct tags of a generated
+// message type: (field number, wire type, label 0 opt / 1 req / 2 rep) in struct order.
+// proto3 reports whether any field is tagged proto3 (the model assumes proto2: optional
+// presence, no UTF-8 validation of strings).
+func pbFieldTable(p *pkgConsts, typ string) (rows []string, proto3 bool) {
+	for _, f := range p.files {
+		for _, d := range f.Decls {
+			gd, ok := d.(*ast.GenDecl)
+			if !ok {
+				continue
+			}
+			for _, sp := range gd.Specs {
+				ts, ok := sp.(*ast.TypeSpec)
+				if !ok || ts.Name.Name != typ {
+					continue
+				}
+				st, ok := ts.Type.(*ast.StructType)
+				if !ok {
+					die("%s is not a struct", typ)
+				}
+				for _, fl := range st.Fields.List {
+					if fl.Tag == nil {
+						continue
+					}
+					raw, err := strconv.Unquote(fl.Tag.Value)
+					if err != nil {
+						die("%s: bad struct tag %s", typ, fl.Tag.Value)
+					}
+					tag := reflect.StructTag(raw).Get("protobuf")
+					if tag == "" {
+						continue
+					}
+					parts := strings.Split(tag, ",")
+					if len(parts) < 3 {
+						die("%s: short protobuf tag %q", typ, tag)
+					}
+					wire, ok := map[string]string{"varint": "0", "fixed64": "1", "bytes": "2", "fixed32": "5", "zigzag32": "zz", "zigzag64": "zz", "group": "3"}[parts[0]]
+					if !ok || wire == "zz" {
+						die("%s: protobuf kind %q is not modelled", typ, parts[0])
+					}
+					label, ok := map[string]string{"opt": "0", "req": "1", "rep": "2"}[parts[2]]
+					if !ok {
+						die("%s: protobuf label %q is not modelled", typ, parts[2])
+					}
+					for _, x := range parts[3:] {
+						if x == "proto3" || x == "packed" {
+							proto3 = true
+						}
+					}
+					name := ""
+					if len(fl.Names) > 0 {
+						name = fl.Names[0].Name
+					}
+					rows = append(rows, fmt.Sprintf("(%s%%N, %s%%N, %s%%N) (* %s *)", parts[1], wire, label, name))
+				}
+				return rows, proto3
+			}
+		}
+	}
+	die("generated message type %s not found", typ)
+	return nil, false
+}
 
 // C15: MaxMessageSize, MuxHeader, message type codes and the dispatch table of
 // coordinator.Service.handleConn.
@@ -101,5 +166,15 @@ func init() {
 		b.WriteString("Definition dispatch_table : list (N * dispatch_kind) :=\n  [ ")
 		b.WriteString(strings.Join(rows, "\n  ; "))
 		b.WriteString(" ].\n")
+
+		// wire layout of the streamed point messages (query/internal/internal.pb.go)
+		qi := loadPkg(filepath.Join(*repo, "query", "internal"))
+		anyProto3 := false
+		for _, m := range []struct{ typ, def string }{{"Point", "c15_pb_point_fields"}, {"Aux", "c15_pb_aux_fields"}, {"IteratorStats", "c15_pb_stats_fields"}} {
+			rows, p3 := pbFieldTable(qi, m.typ)
+			anyProto3 = anyProto3 || p3
+			fmt.Fprintf(b, "Definition %s : list (N * N * N) :=\n  [ %s ].\n", m.def, strings.Join(rows, "\n  ; "))
+		}
+		fmt.Fprintf(b, "Definition c15_pb_proto3_or_packed : bool := %v.\n", anyProto3)
 	})
 }
